@@ -8,7 +8,7 @@
 
 use proc_macro2::{Delimiter, Spacing, TokenStream, TokenTree};
 
-const KEYWORDS: &[&str] = &[
+pub const KEYWORDS: &[&str] = &[
     "as", "async", "await", "box", "break", "const", "continue", "dyn", "else", "enum", "extern",
     "fn", "for", "if", "impl", "in", "let", "loop", "match", "mod", "move", "mut", "pub", "ref",
     "return", "static", "struct", "trait", "type", "unsafe", "use", "where", "while", "yield",
